@@ -1,10 +1,18 @@
 #!/bin/bash
-# Runs every seeded change of /verif/seeded against the quick check of its own property and writes
-# /verif/seeded/RESULTS.md. Applies each patch to /repo and undoes it straight afterwards.
+# Runs every seeded change of /verif/seeded (both rounds) against the quick check of its own property and
+# writes /verif/seeded/RESULTS.md. Each patch is applied to the repository copy, the check is run, and the patch
+# is undone straight afterwards (selftest/try_mutant.sh). With EVAL_REPO / EVAL_VERIF set the run happens in a
+# private worktree of /repo and a copy of /verif (so /repo stays free for other work); by default in /repo itself.
 out=/verif/seeded/RESULTS.md
-echo "| seeded change | check | exit | first violation (sub-check) |" > $out.tmp
-echo "|---|---|---|---|" >> $out.tmp
-for d in /verif/seeded/C*-m*/; do
+R="${EVAL_REPO:-/repo}"
+{
+echo "Seeded changes against the quick check of their own property (seed ${VERIF_SEED:-0})."
+echo "Repository commit $(git -C $R rev-parse --short HEAD), /verif commit $(git -C /verif rev-parse --short HEAD), run in $R."
+echo
+echo "| seeded change | check | exit | first violation (sub-check) |"
+echo "|---|---|---|---|"
+} > $out.tmp
+for d in /verif/seeded/C*-m*/ /verif/seeded/C*-r2m*/; do
   name=$(basename $d); id=${name%%-*}
   r=$(/verif/selftest/try_mutant.sh $d/patch.diff $id 2>/dev/null | grep -v "conda\|Conda\|PermissionError\|^$")
   rc=$(echo "$r" | head -1 | sed 's/.*exit=\([0-9]*\).*/\1/')
